@@ -497,6 +497,11 @@ def check_ready_earned(b, ready_block, facts, res):
                     cforms[fld] = (bi_, cbody, t_.callee.name)
     res.floor("A2", "dependency checks (parents, packs, changes) as loops or all()/any() closures", len(loops) + len(cforms), 3)
     MODE = {"closure": None}
+    for fld_ in ("parents", "packs", "changes"):
+        if fld_ not in loops and fld_ not in cforms:
+            res.violation("A2", "%s|missing-guard:%s_never_examined" % (b.path, fld_),
+                          "%s writes status = Ready without examining the block's `%s` at all (no loop, no all()/any() over that field): a block whose %s "
+                          "are missing or invalid takes effect" % (b.path, fld_, fld_), b.loc())
 
     def loop_body(fld):
         entry, l = loops[fld]
